@@ -932,6 +932,14 @@ pub fn random_hello(r: &mut Rng, allow_near_grease: bool) -> Hello {
         let k = 1 + r.usize(3);
         sprinkle_grease(r, &mut h.ciphers, k);
     }
+    if !h.ciphers.is_empty() && r.chance(1, 6) {
+        // a repeated cipher suite value (the RFCs do not demand uniqueness; JA4 sorts, it never removes entries)
+        for _ in 0..1 + r.usize(2) {
+            let v = h.ciphers[r.usize(h.ciphers.len())];
+            let p = r.usize(h.ciphers.len() + 1);
+            h.ciphers.insert(p, v);
+        }
+    }
     h.compression = match r.below(6) {
         0 => vec![1, 0],
         1 => vec![0, 1, 64],
@@ -964,6 +972,11 @@ pub fn random_hello(r: &mut Rng, allow_near_grease: bool) -> Hello {
         let mut s = random_sigalgs(r, n);
         if r.chance(1, 4) {
             sprinkle_grease(r, &mut s, 1);
+        }
+        if r.chance(1, 8) {
+            let v = s[r.usize(s.len())];
+            let p = r.usize(s.len() + 1);
+            s.insert(p, v);
         }
         exts.push(Ext::SigAlgs(s));
     }
